@@ -183,7 +183,36 @@ func tagScan(c *core.Ctx, fn *core.Fn, name string, crcFn *types.Func) {
 		c.Undecidedf("R3.tag", name+"/skeleton", fn.Decl.Pos(), "%s must take the key as its only parameter", name)
 		return
 	}
-	s := &scan{c: c, fn: fn, info: info, g: cfgq.Of(c.Program, fn), key: sig.Params().At(0), name: name, scanV: map[types.Object]bool{}}
+	key := types.Object(sig.Params().At(0))
+	// the scan may live in a same-package helper h(key) whose result is what gets hashed
+	scanFn, scanKey := fn, key
+	for _, call := range core.Calls(fn.Decl.Body, info, func(_ *ast.CallExpr, o types.Object) bool { return o == types.Object(crcFn) }) {
+		if len(call.Args) != 1 {
+			continue
+		}
+		o := objOf(info, strip(info, call.Args[0]))
+		if o == nil || o == key {
+			continue
+		}
+		if rhs, other := defsOf(info, fn.Decl.Body, o); len(rhs) == 1 && other == 0 && rhs[0] != nil {
+			if hc, ok := ast.Unparen(rhs[0]).(*ast.CallExpr); ok && len(hc.Args) == 1 && objOf(info, hc.Args[0]) == key {
+				if hf := c.FnOf(core.CalleeFunc(info, hc)); hf != nil && hf.Decl.Body != nil && hf.Obj.Pkg() == fn.Obj.Pkg() && hf.Obj != crcFn {
+					scanFn, scanKey = hf, hf.Obj.Type().(*types.Signature).Params().At(0)
+				}
+			}
+		}
+	}
+	if !scanLoops(c, scanFn, name, scanKey) && !scanLib(c, scanFn, name, scanKey) {
+		c.Undecidedf("R3.tag", name+"/skeleton", scanFn.Decl.Pos(), "%s locates the hash tag neither with one test for '{' and one for '}' nor with strings.Index* calls", scanFn.Decl.Name.Name)
+		return
+	}
+	hashPart(c, fn, name, crcFn, key)
+}
+
+// scanLoops checks the hand-written scan; false when fn has no such scan.
+func scanLoops(c *core.Ctx, fn *core.Fn, name string, keyObj types.Object) bool {
+	info := fn.Pkg.TypesInfo
+	s := &scan{c: c, fn: fn, info: info, g: cfgq.Of(c.Program, fn), key: keyObj, name: name, scanV: map[types.Object]bool{}}
 	// scan variables: indices into key, range variables over key
 	ast.Inspect(fn.Decl.Body, func(n ast.Node) bool {
 		switch x := n.(type) {
@@ -213,9 +242,12 @@ func tagScan(c *core.Ctx, fn *core.Fn, name string, crcFn *types.Func) {
 	})
 	openE, openIdx := s.matchEdges('{')
 	closeE, closeIdx := s.matchEdges('}')
+	if len(openE) == 0 && len(closeE) == 0 {
+		return false
+	}
 	if len(openE) != 1 || len(closeE) != 1 || len(slices) == 0 {
 		c.Undecidedf("R3.tag", name+"/skeleton", fn.Decl.Pos(), "expected one test for '{', one for '}' and a slice of the key in %s; found %d, %d, %d", name, len(openE), len(closeE), len(slices))
-		return
+		return true
 	}
 	// (A)/(B): after a match the same search is never resumed
 	again := func(what string, edge [2]interface{}, idx types.Object, ch int64, avoid func(ast.Node) bool, wit, consequence string) {
@@ -286,7 +318,13 @@ func tagScan(c *core.Ctx, fn *core.Fn, name string, crcFn *types.Func) {
 	} else {
 		c.Undecidedf("R3.tag", name+"/scan-start", fn.Decl.Pos(), "cannot find where the search for '}' starts")
 	}
-	// (C) the tag is hashed only when non-empty, otherwise the whole key
+	return true
+}
+
+// hashPart: (C) the tag is hashed only when non-empty, otherwise the whole key.
+func hashPart(c *core.Ctx, fn *core.Fn, name string, crcFn *types.Func, keyObj types.Object) {
+	info := fn.Pkg.TypesInfo
+	s := &scan{c: c, fn: fn, info: info, g: cfgq.Of(c.Program, fn), key: keyObj, name: name}
 	whole, tagged := 0, 0
 	for _, p := range s.g.Points(s.g.HasCall(func(call *ast.CallExpr, callee types.Object) bool { return callee == crcFn })) {
 		for _, call := range cfgq.ExecCalls(p.Node()) {
